@@ -346,7 +346,7 @@ def line (st : St) (l : String) : St × String :=
   | name :: "N" :: args =>
     -- a method call on the NULL object: the arguments must be well formed, the outcome does not depend on them
     let argsOk :=
-      if name = "typeof" || name = "dealloc" then args.isEmpty
+      if name = "typeof" || name = "dealloc" || name = "sort" || name = "assignself" then args.isEmpty
       else if name = "cast" then args.length = 1 && knownTypes.contains (args.headD "")
       else if name = "print" then false
       else if name = "concat" then (match args with | [s] => (parseId s).isNone && (parseVal s).isSome | _ => false)
@@ -386,6 +386,14 @@ def line (st : St) (l : String) : St × String :=
                  ({ st with nops := st.nops + 1, nraised := st.nraised + 1 }, "O " ++ showRes (deallocObj .data) ++ " | " ++ dump o) else bad
              | _, _ => bad)
           | _ => bad
+        else if name = "sort" || name = "assignself" then
+          -- sort(x) / assign(x, x): no argument
+          if !args.isEmpty then bad else
+          match (if name = "sort" then o.sort else o.assignSelf) with
+          | none => bad
+          | some (o', r) =>
+            ({ st with store := st.store.put id o', nops := st.nops + 1, nraised := st.nraised + (match r with | .raised _ => 1 | _ => 0) },
+             "O " ++ showRes r ++ " | " ++ dump o')
         else if name = "getk" || name = "getv" then
           -- `get(table, p)` with `p` the key / value object inside the table's own slot array (the slot that holds key `k`)
           match o, args with
